@@ -16,7 +16,9 @@ CHECKS = {
                      "executions, plus free-running parallel executions, are validated by TLC: at most one callback in progress at any instant. Meta-processes: TLA+ model "
                      "MetaCore (Start goroutine, handler goroutines, senders) model-checked both ways (invariants hold; the Terminate-overlap counterexample P15 and the "
                      "sleep-store mutation are found); one- and two-preemption scenarios park a goroutine of a real meta-process at each meta.* yield point or inside a "
-                     "callback while Start returns, messages or an exit arrive; the callback log is validated by TLC against MetaObs (SerialHandlers, SerialTerm, AtMostOnce, NoLoss).",
+                     "callback while Start returns, messages or an exit arrive; the callback log is validated by TLC against MetaObs (SerialHandlers, SerialTerm, AtMostOnce, NoLoss). The Start goroutine itself is also caught on its way "
+                     "(the park is armed before the meta exists) while messages arrive and the handler of the first one is kept inside its callback; the model's switch "
+                     "Mut_InitSleep (meta registered asleep) must be refuted by TLC. Scenarios K / L: two senders to one queue of a sleeping process by registered name and by alias.",
                 note=PC_NOTE, tech=PC_TECH),
     "C02": dict(level="model_checking", ref="DESIGN.md §4 C02, §9",
                 text="Same machinery as C01; clauses: no lost wake-up (nothing left in the mailbox of a sleeping process at quiescence), accepted = handled "
@@ -27,7 +29,9 @@ CHECKS = {
                 note=PC_NOTE, tech=PC_TECH),
     "C03": dict(level="model_checking", ref="DESIGN.md §4 C03, §9",
                 text="Same machinery as C01; clauses: per-sender FIFO within a class on every execution, and at every pick (atomic under the controller) the "
-                     "handled message is the oldest visible message of the highest non-empty class, judged against the real queue contents.",
+                     "handled message is the oldest visible message of the highest non-empty class, judged against the real queue contents. Order histories: sender processes use "
+                     "the process API (by pid / name, one-shot and sticky priorities, failing sends), the node logs to the receiver, and the parked receiver also writes to itself "
+                     "(own pid with a priority, own name); spec/MailboxOrder.tla judges the order in which everything is handled.",
                 note=PC_NOTE, tech=PC_TECH),
     "C05": dict(level="model_checking", ref="DESIGN.md §4 C05, §9",
                 text="Same machinery as C01 with termination causes as threads (handler error, panic, untrapped/parent/trapped exit, Kill, double Kill): terminate "
@@ -44,7 +48,7 @@ CHECKS["C04"] = dict(level="model_checking", ref="DESIGN.md §4 C04, §9",
          "replayed on a real node (real LinkX/MonitorX/UnlinkX calls inside consumer callbacks racing a real Kill/UnregisterName) and every recorded execution is "
          "validated by TLC: exactly one exit/down with the right target and reason for a relation that holds, none otherwise. Sequential relation "
          "histories (one consumer holding a link and a monitor, several targets, unlink / demonitor, then the fault; systematic and seeded random) are run on a real node and "
-         "judged by TLC with the reference RelH: one notice per relation held, each of its own kind.",
+         "judged by TLC with the reference RelH: one notice per relation held, each of its own kind (alias targets also with owners that hold three aliases and delete another one than the watched one).",
     note=RACE_NOTE, tech="TLA+ spec Relations + TLC; edge-cover plans replayed under the controlling scheduler; traces validated by TLC (Relations_Trace: Core conformance with drift detection, clauses over observations)")
 
 CHECKS["C06"] = dict(level="model_checking", ref="DESIGN.md §4 C06, §9",
@@ -55,7 +59,8 @@ CHECKS["C06"] = dict(level="model_checking", ref="DESIGN.md §4 C06, §9",
          "checked by TLC (spec IdGen), and 600k-1.2M references, thousands of pids and aliases are checked for repetition on the real node. Sequential ownership "
          "histories (create / delete aliases at every position, register / unregister name and events, link / monitor / unlink, then kill / normal / abnormal exit; "
          "systematic and seeded random) are run on a real node and judged by TLC with the reference RegistryH: kept aliases intact, everything the process owned is "
-         "released at termination and no relation mentions it any more.",
+         "released at termination and no relation mentions it any more; name and events are claimed again at the very moment the termination has been announced (the "
+         "terminating goroutine is parked behind its exit / down signals: ClaimableOnNotice).",
     note=RACE_NOTE,
     tech="TLA+ specs Registry, IdGen + TLC; edge-cover plans replayed under the controlling scheduler; traces validated by TLC (Registry_Trace)")
 
@@ -74,10 +79,11 @@ SUP_NOTE = ("Trusted: TLC; the reference supervisor (spec/SupContract.tla) is wr
 CHECKS["C08"] = dict(level="model_checking", ref="DESIGN.md §4 C08, §9",
     text="Every configuration (type x strategy x KeepOrder x significant child x auto-shutdown) is run on real act.Supervisor processes with gated children through "
          "enumerated fault histories: every child x every reason at quiescence, second faults, DisableChild/EnableChild, and every order of 2-3 overlapping deaths; "
+         "DisableChild on a busy child followed by the death of a sibling; an exit signal to the supervisor itself while a child leaves with a reason of its own; "
          "simple-one-for-one supervisors (instances started with StartChild, faults on the k-th running instance, DisableChild / EnableChild / StartChild, compared by counts); "
          "TLC validates each recorded history against the sequential reference supervisor SupContract: running set, which children kept their process, start order, "
          "stop order under KeepOrder (as the supervisor saw it), fate and reason of the supervisor.",
-    note=SUP_NOTE + " The three restart state machines are not transcribed transition by transition (planned); open findings P7a-c are matched by exact history.",
+    note=SUP_NOTE + " The three restart state machines are not transcribed transition by transition (planned); open findings P7a-d are matched by exact history.",
     tech="TLA+ reference specification SupContract evaluated by TLC over recorded histories of real supervisors (trace validation)")
 CHECKS["C09"] = dict(level="model_checking", ref="DESIGN.md §4 C09, §9",
     text="TLA+ spec Intensity: the transcription of supCheckRestartIntensity equals the sliding-window definition for every timing pattern over I in 1..3, P in 1..2 "
@@ -101,7 +107,7 @@ CHECKS["C19"] = dict(level="model_checking", ref="DESIGN.md §4 C19, §9",
          "full; AddWorkers / RemoveWorkers; Kill) used as sequential oracle: systematic and seeded random operation histories (sends, requests, holding workers inside "
          "their handler so that bounded mailboxes fill, releases, kills, add/remove) are executed on a real act.Pool with gated workers, every operation followed by "
          "quiescence, and TLC replays each recorded line on the model: per worker what it handled, holds and has queued, who is alive (ring keeps its size), and "
-         "which reply reached which caller. After AddWorkers the systematic histories fill every original worker so that the added ones must be reached.",
+         "which reply reached which caller. A worker can also be killed while it is kept inside its handler (zombie): the pool must treat it as dead at once. After AddWorkers the systematic histories fill every original worker so that the added ones must be reached.",
     note="Trusted: TLC; histories are sequential (quiescence after every operation), so concurrent dispatch races are outside this check; pool sizes 1-4, worker mailbox 0-3.",
     tech="TLA+ model Pool evaluated by TLC as oracle over recorded histories of a real pool (trace validation)")
 
@@ -109,7 +115,7 @@ CHECKS["C17"] = dict(level="model_checking", ref="DESIGN.md §4 C17, §9",
     text="TLA+ sequential reference AppContract (dependencies first, members in order, Start once, failed start leaves nothing running, mode rule Permanent / "
          "Transient / Temporary, Terminate once with the causing reason, back to loaded, stop reports success only when everything is down) used as oracle: systematic "
          "histories (every mode x 1-3 members x every member x every reason, a second member leaving its handler with its own reason while the application is already stopping, explicit start modes, failing k-th member, dependencies, stop / stop-force / unload / "
-         "restart, unload attempted while a parked member keeps a stop in progress) and seeded random ones are executed on a real node in a subprocess (a call that never returns is an observation) and TLC replays every recorded line.",
+         "restart, unload attempted while a parked member keeps a stop in progress, start attempted while the dependency is on its way down) and seeded random ones are executed on a real node in a subprocess (a call that never returns is an observation) and TLC replays every recorded line.",
     note="Trusted: TLC; operations are sequential (quiescence after each): races between concurrent API calls and member deaths (App atomic-step model, DESIGN Appendix G) "
          "are not bound to the code yet; 1-4 members, one dependency.",
     tech="TLA+ reference AppContract evaluated by TLC as oracle over recorded histories of a real node (trace validation)")
@@ -142,7 +148,7 @@ CHECKS["C13"] = dict(level="model_checking", ref="DESIGN.md §4 C13, §9",
          "receiver's residue, one worker per queue, Join/remove of links) is model-checked exhaustively for small constants: PairFifo holds for non-zero residues "
          "on a stable pool and TLC produces the counterexamples for residue 0 and for a changing pool. The same configurations are driven on two real nodes "
          "through the delaying relay (streams of 50-1500 numbered messages per pair, several pairs at once, pool sizes 1-6, link-0 / rotating delays, links "
-         "joining during the stream, one link cut and traffic continuing after it was re-dialled, compressed and > 64 KiB messages interleaved with small ones); spec/Net.tla judges every recorded arrival sequence (increasing, no duplicate, complete when nothing was cut).",
+         "joining during the stream (the harness starts a stream only when both ends have joined the announced number of links: yield point pool.join), receivers whose id residue is a multiple of the number of receive queues, one link cut and traffic continuing after it was re-dialled, compressed and > 64 KiB messages interleaved with small ones); spec/Net.tla judges every recorded arrival sequence (increasing, no duplicate, complete when nothing was cut).",
     note="Trusted: TLC, the relay. The two model counterexamples are genuine defects of the code (known findings P11a, P11b, reproduced on the real nodes by every run); "
          "a reordering in any other configuration is a violation. Re-dial of a cut link is exercised but the window between loss and re-dial is not controlled.",
     tech="TLA+ model NetOrder model-checked by TLC; recorded per-pair arrival sequences of two real nodes behind a delaying relay validated by TLC against spec/Net.tla")
@@ -167,7 +173,7 @@ CHECKS["C15"] = dict(level="model_checking", ref="DESIGN.md §4 C15, §9",
          "connected iff the effective cookies are equal - and agreement of both ends on name, incarnation, flags and size limit; (b) a raw TCP peer replays the "
          "bytes the relay recorded from an honest node (whole Start side, cut after 1-3 messages, the Join of a pooled link), sends garbage and truncated messages: it "
          "never passes the step that needs the cookie, nothing it sends reaches a process, honest nodes still connect; (c) Enable/Disable Spawn/ApplicationStart "
-         "histories (systematic and seeded random) with two real peers: an attempt succeeds only for a peer the history enabled and did not disable, only if the "
+         "histories (systematic and seeded random) with two real peers: an attempt - also a forged one, in which a peer names the other peer as the parent of the process to be spawned - succeeds only for the connected peer the history enabled and did not disable, only if the "
          "acceptor's flags allow it, and the requester's environment is visible only with exposure on.",
     note="Trusted: TLC; SHA-256 as perfect hash. Over-denial (a peer enabled by the history but refused) is not judged. TLS fingerprints and proxy routes are not covered.",
     tech="TLA+ symbolic model Handshake model-checked by TLC; cookie / replay / permission cases recorded on real nodes validated by TLC against spec/Access.tla")
